@@ -117,8 +117,9 @@ theorem client_accepts_iff (P : Prims) (c : Client) (v : ClientView) :
 /-- T1 `client_accepts_only_if` (the property's client half).  A client that completes has received at least
     two certificates `s` (position 0) and `e` (position 1), both parse and carry SM2 keys, `s` may sign and `e`
     may encipher, and
-    * verification was disabled by configuration, or both certificates verified against the client's roots with
-      the configured time and server name (`Model.X509.verify`, whose meaning is `client_chain_meaning` below);
+    * verification was disabled by configuration, or both certificates verified against the client's roots, with the
+      certificates that follow them in the message (`rest`) as intermediates, at the configured time and for the
+      configured server name (`Model.X509.verify`, whose meaning is `client_chain_meaning` below);
     * a ServerKeyExchange came whose signature verifies under the key of `s` over THIS session's client random,
       the server random of the ServerHello this client received, and the DER of `e` as this client received it;
     * the server's Finished equals PRF(master, "server finished", SM3(transcript)) for the client's own transcript
@@ -127,7 +128,8 @@ theorem client_accepts_only_if (P : Prims) (c : Client) (v : ClientView) (h : cl
     ∃ ds de s e rest, v.ders = ds :: de :: rest ∧ P.parse ds = some s ∧ P.parse de = some e ∧
       s.sm2 = true ∧ e.sm2 = true ∧ s.x.keyUsage &&& 3 ≠ 0 ∧ e.x.keyUsage &&& 28 ≠ 0 ∧
       (c.insecureSkipVerify = true ∨
-        (chainOK c.roots [] s.x c.opts = true ∧ chainOK c.roots [] e.x c.opts = true)) ∧
+        (chainOK c.roots (rest.filterMap fun r => (P.parse r).map (·.x)) s.x c.opts = true ∧
+         chainOK c.roots (rest.filterMap fun r => (P.parse r).map (·.x)) e.x c.opts = true)) ∧
       (∃ sig, v.ske = some sig ∧ P.sigOK s.x.key (.ske c.random v.sh.random de) sig = true) ∧
       clientT1 P c v = clientT0 c v ++ (if v.certReq.isSome then [.certificate c.cert] else []) ++
         [.clientKeyExchange (P.enc e.x.key c.pms)] ∧
@@ -148,8 +150,12 @@ theorem client_accepts_only_if (P : Prims) (c : Client) (v : ClientView) (h : cl
     · rcases hchain with h | ⟨ha, hb⟩
       · exact Or.inl h
       · refine Or.inr ⟨?_, ?_⟩
-        · simpa [serverChainOK, c0] using ha
-        · simpa [serverChainOK, c1] using hb
+        · unfold serverChainOK at ha
+          rw [c0] at ha
+          simpa [serverInters, hd] using ha
+        · unfold serverChainOK at hb
+          rw [c1] at hb
+          simpa [serverInters, hd] using hb
     · unfold skeOK at hske
       rw [c0] at hske
       cases hsig : v.ske with
@@ -197,20 +203,22 @@ theorem verify_ok_nonempty (roots inters : List X509.Cert) (leaf : X509.Cert) (o
 
 /-- the meaning of "the chain verified" (from C10 `verify_sound`): the certificate has no unhandled critical
     extension, is valid at the configured time, matches the configured server name, and heads a path of correctly
-    signed, currently valid certificates that ends in one of the client's roots -/
-theorem client_chain_meaning (roots : List X509.Cert) (leaf : X509.Cert) (o : X509.Opts)
-    (h : chainOK roots [] leaf o = true) :
+    signed, currently valid certificates — CA certificates taken from the intermediates the peer sent — that ends
+    in one of the client's roots.  (Statement changed with the repair of the intermediates pool: it used to speak of
+    the empty pool only; it now holds for every pool `inters`.) -/
+theorem client_chain_meaning (roots inters : List X509.Cert) (leaf : X509.Cert) (o : X509.Opts)
+    (h : chainOK roots inters leaf o = true) :
     leaf.critical = false ∧ X509.isValid leaf .leaf [] o = none ∧
     (o.dnsName.length > 0 → X509.verifyHostname leaf o = true) ∧
     ∃ chains : List (List Nat), chains ≠ [] ∧ ∀ ids ∈ chains, ∃ chain : List X509.Cert, ids = chain.map (·.id) ∧
       ((chain = [leaf] ∧ roots.any (·.id == leaf.id) = true) ∨
-        ∃ suffix, chain = [leaf] ++ suffix ∧ Props.C10.GoodSuffix roots [] o [leaf] suffix) := by
+        ∃ suffix, chain = [leaf] ++ suffix ∧ Props.C10.GoodSuffix roots inters o [leaf] suffix) := by
   unfold chainOK at h
-  cases hv : X509.verify roots [] leaf o with
+  cases hv : X509.verify roots inters leaf o with
   | ok chains =>
-    obtain ⟨a, b, c, d⟩ := Props.C10.verify_sound roots [] leaf o chains hv
+    obtain ⟨a, b, c, d⟩ := Props.C10.verify_sound roots inters leaf o chains hv
     refine ⟨a, b, c, chains, ?_, fun ids hids => ?_⟩
-    · exact verify_ok_nonempty roots [] leaf o chains hv
+    · exact verify_ok_nonempty roots inters leaf o chains hv
     · obtain ⟨chain, e, g, _⟩ := d ids hids
       exact ⟨chain, e, g⟩
   | critical => simp [hv] at h
